@@ -29,6 +29,13 @@ Not judged: speeds other than FS in fs_only configurations (the statement exclud
   a measurement during which the speed input changed; whether damaged / foreign / SOF packets start a timer (after
   such a packet nothing is judged until the next known start); the receiver's ready strobe outside the window that
   follows a valid data packet.  Host packets that arrive inside the device's response window are not generated.
+Monitors: one per-cycle judge per observed output group (timer strobes; token ready; receiver ready, modelled with the
+  receiver's arm/disarm gating), fed with the sampled start events and the sampled speed; all interfaces of one timer
+  must show identical strobes.
+Known finding (unchanged tree): at speed LOW the timer uses the HIGH-speed table (findings/C05.md).  Classifier: a
+  second judge whose table differs only in "LS row := HS row" runs beside the specification judge; the mechanism
+  `<where>ls_follows_hs_table` is reported only when the specification judge is contradicted at speed LOW while the second
+  judge still explains every judged cycle; anything else keeps `<where><strobe>_{spurious,missing}_<speed>`.
 Deviation from DESIGN section 7: latency L is required to be constant per case (cases are independent processes), not
   per run.  High-speed in-device operation (needs the 300 k-cycle chirp handshake) is covered at block level only.
 """
